@@ -359,6 +359,17 @@ func OrChain(r *Rng, vals []Leaf) *Ft {
 	return t
 }
 
+// HasFuzzyBoost reports whether the tree contains a fuzzy or boost node.
+func (t *Ft) HasFuzzyBoost() bool {
+	if t == nil {
+		return false
+	}
+	if t.K == "fuzzy" || t.K == "boost" {
+		return true
+	}
+	return t.L.HasFuzzyBoost() || t.R.HasFuzzyBoost() || t.E.HasFuzzyBoost()
+}
+
 // StripJux clears every juxtaposition flag (explicit AND everywhere).
 func (t *Ft) StripJux() *Ft {
 	if t == nil {
